@@ -279,14 +279,25 @@ func (ps *PubSub) subscribe(conn redcon.Conn, pattern bool, channel string) {
 	sconn.mu.Lock()
 	defer sconn.mu.Unlock()
 
-	// add an entry to the pubsub btree
-	entry := &pubSubEntry{
-		pattern: pattern,
-		channel: channel,
-		sconn:   sconn,
+	// Subscribing twice is a no-op. A second entry would survive the UNSUBSCRIBE that
+	// removes the only item the tree keeps for this (pattern, channel, connection) key.
+	var subscribed bool
+	for ient := range sconn.entries {
+		if ient.pattern == pattern && ient.channel == channel {
+			subscribed = true
+			break
+		}
 	}
-	ps.chans.Set(entry)
-	sconn.entries[entry] = true
+	if !subscribed {
+		// add an entry to the pubsub btree
+		entry := &pubSubEntry{
+			pattern: pattern,
+			channel: channel,
+			sconn:   sconn,
+		}
+		ps.chans.Set(entry)
+		sconn.entries[entry] = true
+	}
 
 	// send a message to the client
 	sconn.dconn.WriteArray(3)
